@@ -1,6 +1,868 @@
-//! C05 — not built yet.
-use vcommon::Args;
+//! C05 — zvariant's GVariant bytes are exactly the normal form the GVariant specification
+//! prescribes.
+//!
+//! Space: every type with ≤ N nodes (N = 3 quick, 4 thorough; `m` included) × every value of
+//! `rv::values` (cap 64, base-choice beyond) × {LE, BE} × start offsets 0‥7, plus containers whose
+//! size sweeps across the framing-offset width thresholds (payload lengths 240‥262 and
+//! 65518‥65542 in twelve container shapes, and `as` with n short strings for n around 85 and 21845).
+//! Oracle: bytes from the real `zvariant::to_bytes_for_signature(Context::new_gvariant(..))`
+//! == `refgv::serialize`. The reference itself is audited against GLib (dlopen) over the same
+//! corpus; a disagreement there is a machinery failure, not a verdict.
+//!
+//! This file also hosts the small private helpers that drive the real zvariant API for bare
+//! (non-variant) types, shared by C07 and C04.
 
+use serde_json::{json, Value as J};
+use vcommon::{hash64, Args, Report, Violation};
+
+use crate::rv::{self, FdTable, Ty, RV};
+
+// ------------------------------------------------------------------------------------------
+// helpers around the real API (shared with c07 / c04)
+// ------------------------------------------------------------------------------------------
+
+#[derive(Clone, Copy, Debug, PartialEq, Eq, Hash)]
+pub(crate) enum Fmt {
+    DBus,
+    GV,
+}
+
+impl Fmt {
+    pub fn name(self) -> &'static str {
+        match self {
+            Fmt::DBus => "dbus",
+            Fmt::GV => "gvariant",
+        }
+    }
+    pub fn parse(s: &str) -> Option<Fmt> {
+        match s {
+            "dbus" => Some(Fmt::DBus),
+            "gvariant" => Some(Fmt::GV),
+            _ => None,
+        }
+    }
+}
+
+/// Page faults are very expensive in the sandbox VM; keep freed memory inside the process so that
+/// the large values of the threshold sweeps do not fault their pages in again and again.
+pub(crate) fn keep_freed_memory() {
+    unsafe {
+        libc::mallopt(libc::M_MMAP_THRESHOLD, 1 << 30);
+        libc::mallopt(libc::M_TRIM_THRESHOLD, i32::MAX);
+        libc::mallopt(libc::M_TOP_PAD, 64 << 20);
+    }
+}
+
+pub(crate) fn gv_enabled() -> bool {
+    cfg!(feature = "gvariant")
+}
+
+pub(crate) fn ctx(fmt: Fmt, be: bool, pos: usize) -> Option<zvariant::serialized::Context> {
+    let e = if be { zvariant::BE } else { zvariant::LE };
+    match fmt {
+        Fmt::DBus => Some(zvariant::serialized::Context::new_dbus(e, pos)),
+        #[cfg(feature = "gvariant")]
+        Fmt::GV => Some(zvariant::serialized::Context::new_gvariant(e, pos)),
+        #[cfg(not(feature = "gvariant"))]
+        Fmt::GV => None,
+    }
+}
+
+/// Encode the *bare* value `v` (type = its own signature, not wrapped in a variant) with the real
+/// serializer. `Value::Value(inner)` is the bare type `v` whose payload is `inner`.
+pub(crate) fn real_encode(
+    v: &zvariant::Value<'_>,
+    c: zvariant::serialized::Context,
+) -> zvariant::Result<zvariant::serialized::Data<'static, 'static>> {
+    use zvariant::{to_bytes_for_signature as tb, Value as V};
+    let sig = match v {
+        V::Value(_) => zvariant::Signature::Variant,
+        other => other.value_signature().clone(),
+    };
+    match v {
+        V::U8(x) => tb(c, sig, x),
+        V::Bool(x) => tb(c, sig, x),
+        V::I16(x) => tb(c, sig, x),
+        V::U16(x) => tb(c, sig, x),
+        V::I32(x) => tb(c, sig, x),
+        V::U32(x) => tb(c, sig, x),
+        V::I64(x) => tb(c, sig, x),
+        V::U64(x) => tb(c, sig, x),
+        V::F64(x) => tb(c, sig, x),
+        V::Str(x) => tb(c, sig, x),
+        V::Signature(x) => tb(c, sig, x),
+        V::ObjectPath(x) => tb(c, sig, x),
+        V::Value(x) => tb(c, sig, &**x),
+        V::Array(x) => tb(c, sig, x),
+        V::Dict(x) => tb(c, sig, x),
+        V::Structure(x) => tb(c, sig, x),
+        #[cfg(feature = "gvariant")]
+        V::Maybe(x) => tb(c, sig, x),
+        V::Fd(x) => tb(c, sig, x),
+    }
+}
+
+pub(crate) fn err_class(e: &zvariant::Error) -> String {
+    use zvariant::Error as E;
+    match e {
+        E::Message(_) => "Message".into(),
+        E::InputOutput(_) => "InputOutput".into(),
+        E::IncorrectType => "IncorrectType".into(),
+        E::Utf8(_) => "Utf8".into(),
+        E::PaddingNot0(_) => "PaddingNot0".into(),
+        E::UnknownFd => "UnknownFd".into(),
+        E::MissingFramingOffset => "MissingFramingOffset".into(),
+        E::IncompatibleFormat(..) => "IncompatibleFormat".into(),
+        E::SignatureMismatch(..) => "SignatureMismatch".into(),
+        E::OutOfBounds => "OutOfBounds".into(),
+        E::MaxDepthExceeded(_) => "MaxDepthExceeded".into(),
+        E::SignatureParse(_) => "SignatureParse".into(),
+        E::EmptyStructure => "EmptyStructure".into(),
+        E::InvalidObjectPath => "InvalidObjectPath".into(),
+        #[allow(unreachable_patterns)]
+        _ => "Other".into(),
+    }
+}
+
+// JSON form of the harness value tree, for replay artefacts.
+pub(crate) fn rv_to_json(v: &RV) -> J {
+    match v {
+        RV::Y(x) => json!({"y": x}),
+        RV::B(x) => json!({"b": x}),
+        RV::N(x) => json!({"n": x}),
+        RV::Q(x) => json!({"q": x}),
+        RV::I(x) => json!({"i": x}),
+        RV::U(x) => json!({"u": x}),
+        RV::X(x) => json!({"x": x.to_string()}),
+        RV::T(x) => json!({"t": x.to_string()}),
+        RV::D(x) => json!({"d": format!("{x:016x}")}),
+        RV::S(x) => json!({"s": x}),
+        RV::O(x) => json!({"o": x}),
+        RV::G(x) => json!({"g": x}),
+        RV::H(x) => json!({"h": x}),
+        RV::V(b) => json!({"v": [b.0.sig(), rv_to_json(&b.1)]}),
+        RV::Array(e, xs) => {
+            // long byte arrays are stored run-length encoded
+            if *e == Ty::Y && xs.len() > 32 && xs.iter().all(|x| *x == xs[0]) {
+                if let RV::Y(b) = xs[0] {
+                    return json!({"ay_fill": [b, xs.len()]});
+                }
+            }
+            json!({"a": [e.sig(), xs.iter().map(rv_to_json).collect::<Vec<_>>()]})
+        }
+        RV::Dict(k, vt, xs) => json!({"e": [k.sig(), vt.sig(),
+            xs.iter().map(|(a, b)| json!([rv_to_json(a), rv_to_json(b)])).collect::<Vec<_>>()]}),
+        RV::Struct(xs) => json!({"r": xs.iter().map(rv_to_json).collect::<Vec<_>>()}),
+        RV::Maybe(e, None) => json!({"m": [e.sig()]}),
+        RV::Maybe(e, Some(x)) => json!({"m": [e.sig(), rv_to_json(x)]}),
+    }
+}
+
+pub(crate) fn rv_from_json(j: &J) -> Option<RV> {
+    let o = j.as_object()?;
+    let (k, v) = o.iter().next()?;
+    Some(match k.as_str() {
+        "y" => RV::Y(v.as_u64()? as u8),
+        "b" => RV::B(v.as_bool()?),
+        "n" => RV::N(v.as_i64()? as i16),
+        "q" => RV::Q(v.as_u64()? as u16),
+        "i" => RV::I(v.as_i64()? as i32),
+        "u" => RV::U(v.as_u64()? as u32),
+        "x" => RV::X(v.as_str()?.parse().ok()?),
+        "t" => RV::T(v.as_str()?.parse().ok()?),
+        "d" => RV::D(u64::from_str_radix(v.as_str()?, 16).ok()?),
+        "s" => RV::S(v.as_str()?.to_string()),
+        "o" => RV::O(v.as_str()?.to_string()),
+        "g" => RV::G(v.as_str()?.to_string()),
+        "h" => RV::H(v.as_u64()? as u32),
+        "v" => {
+            let a = v.as_array()?;
+            RV::V(Box::new((rv::parse_ty(a[0].as_str()?)?, rv_from_json(&a[1])?)))
+        }
+        "ay_fill" => {
+            let a = v.as_array()?;
+            RV::Array(Ty::Y, vec![RV::Y(a[0].as_u64()? as u8); a[1].as_u64()? as usize])
+        }
+        "a" => {
+            let a = v.as_array()?;
+            RV::Array(
+                rv::parse_ty(a[0].as_str()?)?,
+                a[1].as_array()?.iter().map(rv_from_json).collect::<Option<Vec<_>>>()?,
+            )
+        }
+        "e" => {
+            let a = v.as_array()?;
+            RV::Dict(
+                rv::parse_ty(a[0].as_str()?)?,
+                rv::parse_ty(a[1].as_str()?)?,
+                a[2].as_array()?
+                    .iter()
+                    .map(|p| Some((rv_from_json(&p[0])?, rv_from_json(&p[1])?)))
+                    .collect::<Option<Vec<_>>>()?,
+            )
+        }
+        "r" => RV::Struct(v.as_array()?.iter().map(rv_from_json).collect::<Option<Vec<_>>>()?),
+        "m" => {
+            let a = v.as_array()?;
+            let e = rv::parse_ty(a[0].as_str()?)?;
+            match a.get(1) {
+                None => RV::Maybe(e, None),
+                Some(x) => RV::Maybe(e, Some(Box::new(rv_from_json(x)?))),
+            }
+        }
+        _ => return None,
+    })
+}
+
+// ------------------------------------------------------------------------------------------
+// the check
+// ------------------------------------------------------------------------------------------
+
+#[cfg(not(feature = "gvariant"))]
 pub fn main(_args: &Args) -> i32 {
-    vcommon::machinery_failure("C05: check not built yet")
+    vcommon::machinery_failure("C05 needs the gvariant build of zv")
+}
+
+#[cfg(feature = "gvariant")]
+pub fn main(args: &Args) -> i32 {
+    gv::main(args)
+}
+
+#[cfg(feature = "gvariant")]
+mod gv {
+    use super::*;
+    use crate::refgv::{self, Quirks, QUIRK_NAMES};
+    use std::sync::atomic::{AtomicU64, Ordering};
+    use std::sync::Mutex;
+
+    fn ay(len: usize, b: u8) -> RV {
+        RV::Array(Ty::Y, vec![RV::Y(b); len])
+    }
+    fn s(len: usize) -> RV {
+        RV::S("k".repeat(len))
+    }
+
+    /// Containers around a bulk payload `p` (a long `s` or `ay`); every shape has at least one
+    /// framing offset or terminator whose position/width depends on the payload's size.
+    pub fn threshold_shapes(p: &RV) -> Vec<(String, RV)> {
+        let pt = p.ty();
+        let ps = pt.sig();
+        let p = || p.clone();
+        let small = || match &pt {
+            Ty::S => s(2),
+            _ => ay(2, 2),
+        };
+        let py = Ty::Struct(vec![pt.clone(), Ty::Y]);
+        vec![
+            (format!("({ps}y)"), RV::Struct(vec![p(), RV::Y(2)])),
+            (format!("a{ps}/1"), RV::Array(pt.clone(), vec![p()])),
+            (format!("a{ps}/2"), RV::Array(pt.clone(), vec![p(), small()])),
+            (format!("a{{s{ps}}}"), RV::Dict(Ty::S, pt.clone(), vec![(RV::S("k".into()), p())])),
+            (format!("a{{y{ps}}}"), RV::Dict(Ty::Y, pt.clone(), vec![(RV::Y(1), p())])),
+            (format!("({ps}{ps})"), RV::Struct(vec![p(), small()])),
+            (format!("({ps}sy)"), RV::Struct(vec![p(), s(1), RV::Y(9)])),
+            (
+                format!("(sa{ps})"),
+                RV::Struct(vec![s(3), RV::Array(pt.clone(), vec![p(), small()])]),
+            ),
+            (format!("av<{ps}>"), RV::Array(Ty::V, vec![RV::V(Box::new((pt.clone(), p())))])),
+            (format!("m{ps}"), RV::Maybe(pt.clone(), Some(Box::new(p())))),
+            (
+                format!("a({ps}y)"),
+                RV::Array(
+                    py.clone(),
+                    vec![RV::Struct(vec![p(), RV::Y(1)]), RV::Struct(vec![small(), RV::Y(2)])],
+                ),
+            ),
+            (
+                format!("a{{s({ps}y)}}"),
+                RV::Dict(Ty::S, py.clone(), vec![(s(2), RV::Struct(vec![p(), RV::Y(1)]))]),
+            ),
+        ]
+    }
+
+    /// Shapes whose bulk is a dict-entry *key* (keys are basic, so only strings).
+    fn key_shapes(l: usize) -> Vec<(String, RV)> {
+        vec![
+            ("a{sy}/key".into(), RV::Dict(Ty::S, Ty::Y, vec![(s(l), RV::Y(7))])),
+            ("a{ss}/key".into(), RV::Dict(Ty::S, Ty::S, vec![(s(l), s(1))])),
+            (
+                "a{sx}/key".into(),
+                RV::Dict(Ty::S, Ty::X, vec![(s(l), RV::X(-2)), (s(1), RV::X(3))]),
+            ),
+        ]
+    }
+
+    /// Hand-picked values of types beyond the node bound that exercise rule combinations the
+    /// bounded enumeration cannot reach (empty variable-size members, nested maybes, nested
+    /// fixed-size structures, variants of different alignment in one array).
+    fn extras() -> Vec<RV> {
+        let ay_t = Ty::Array(Box::new(Ty::Y));
+        let my_t = Ty::Maybe(Box::new(Ty::Y));
+        let ny = |a: i16, b: u8| RV::Struct(vec![RV::N(a), RV::Y(b)]);
+        let ny_t = Ty::Struct(vec![Ty::N, Ty::Y]);
+        let just = |t: Ty, v: RV| RV::Maybe(t, Some(Box::new(v)));
+        let var = |v: RV| RV::V(Box::new((v.ty(), v)));
+        vec![
+            RV::Struct(vec![ay(0, 0), ay(0, 0)]),
+            RV::Struct(vec![ay(1, 5), ay(0, 0)]),
+            RV::Struct(vec![ay(0, 0), ay(1, 5)]),
+            RV::Struct(vec![ay(0, 0), ay(0, 0), ay(0, 0)]),
+            RV::Struct(vec![RV::Maybe(Ty::Y, None), RV::Maybe(Ty::Y, None)]),
+            RV::Struct(vec![RV::Array(Ty::S, vec![]), RV::Array(Ty::S, vec![])]),
+            RV::Struct(vec![RV::Array(Ty::S, vec![]), RV::Maybe(Ty::S, None), RV::Y(1)]),
+            RV::Array(
+                Ty::Struct(vec![ay_t.clone(), ay_t.clone()]),
+                vec![RV::Struct(vec![ay(0, 0), ay(0, 0)]), RV::Struct(vec![ay(0, 0), ay(0, 0)])],
+            ),
+            RV::Maybe(my_t.clone(), None),
+            just(my_t.clone(), RV::Maybe(Ty::Y, None)),
+            just(my_t.clone(), just(Ty::Y, RV::Y(1))),
+            just(Ty::Maybe(Box::new(Ty::S)), RV::Maybe(Ty::S, None)),
+            just(Ty::Maybe(Box::new(Ty::S)), just(Ty::S, s(1))),
+            RV::Array(
+                Ty::Maybe(Box::new(my_t.clone())),
+                vec![just(my_t.clone(), RV::Maybe(Ty::Y, None)), RV::Maybe(my_t.clone(), None)],
+            ),
+            RV::Struct(vec![ny(1, 2), RV::Y(3)]),
+            RV::Struct(vec![RV::Y(3), ny(1, 2)]),
+            RV::Array(
+                Ty::Struct(vec![ny_t.clone(), Ty::Y]),
+                vec![RV::Struct(vec![ny(1, 2), RV::Y(3)]), RV::Struct(vec![ny(4, 5), RV::Y(6)])],
+            ),
+            RV::Struct(vec![RV::Struct(vec![RV::Y(1), RV::X(2)]), RV::Y(3)]),
+            RV::Dict(Ty::S, ny_t.clone(), vec![(s(1), ny(1, 2)), (s(2), ny(3, 4))]),
+            RV::Dict(Ty::X, ny_t.clone(), vec![(RV::X(1), ny(1, 2)), (RV::X(2), ny(3, 4))]),
+            RV::Struct(vec![var(RV::Struct(vec![RV::X(1), RV::Y(2)]))]),
+            RV::Array(Ty::V, vec![var(RV::Y(1)), var(RV::X(2)), var(s(2)), var(ny(1, 2))]),
+            RV::Dict(
+                Ty::S,
+                Ty::V,
+                vec![(RV::S("a".into()), var(RV::U(1))), (RV::S("bc".into()), var(s(1)))],
+            ),
+            RV::Struct(vec![s(1), RV::Maybe(Ty::X, Some(Box::new(RV::X(1)))), ay(2, 1), RV::N(7)]),
+            RV::Maybe(
+                Ty::Struct(vec![Ty::X, Ty::Y]),
+                Some(Box::new(RV::Struct(vec![RV::X(1), RV::Y(2)]))),
+            ),
+            RV::Array(
+                Ty::Maybe(Box::new(Ty::Struct(vec![Ty::X, Ty::Y]))),
+                vec![
+                    just(Ty::Struct(vec![Ty::X, Ty::Y]), RV::Struct(vec![RV::X(1), RV::Y(2)])),
+                    RV::Maybe(Ty::Struct(vec![Ty::X, Ty::Y]), None),
+                ],
+            ),
+        ]
+    }
+
+    /// `as` with `n` one-character strings: body 2n, n offsets.
+    fn many_strings(n: usize) -> RV {
+        RV::Array(Ty::S, vec![RV::S("a".into()); n])
+    }
+
+    struct Case {
+        label: String,
+        v: RV,
+        threshold: bool,
+    }
+
+    /// Total sizes around which the framing-offset width changes (255 | 256, 65535 | 65536).
+    fn near_threshold(total: usize) -> bool {
+        (251..=260).contains(&total) || (65531..=65540).contains(&total)
+    }
+
+    fn corpus(tier: vcommon::Tier, capped: &mut bool) -> Vec<Case> {
+        let n = tier.pick(3, 4);
+        let dom = rv::Domain::standard(64);
+        let mut out = vec![];
+        // threshold-crossing containers first (they are the expensive ones): for every shape, every
+        // payload length whose *total* normal-form size lies within ±5 of a width threshold.
+        // Bulk payload: a long string everywhere; a long `ay` for all shapes around 255/256 and for
+        // the totals 65534‥65537 (big element trees are expensive in this sandbox).
+        let mut ls: Vec<usize> = (225..=262).collect();
+        ls.extend(65490..=65542);
+        let mut push = |name: String, l: usize, v: RV, only_core: bool, out: &mut Vec<Case>| {
+            let total = refgv::normal_form(&v, false).len();
+            let keep = if only_core {
+                (65534..=65537).contains(&total)
+            } else {
+                near_threshold(total)
+            };
+            if keep {
+                out.push(Case {
+                    label: format!("{name} L={l} total={total}"),
+                    v,
+                    threshold: true,
+                });
+            }
+        };
+        for &l in &ls {
+            for (name, v) in threshold_shapes(&s(l)) {
+                push(name, l, v, false, &mut out);
+            }
+            for (name, v) in key_shapes(l) {
+                push(name, l, v, false, &mut out);
+            }
+            if l < 1000 {
+                for (name, v) in threshold_shapes(&ay(l, 1)) {
+                    push(name, l, v, false, &mut out);
+                }
+            } else if (65515..=65536).contains(&l) {
+                // three shapes only, totals 65534..=65537
+                let big = ay(l, 1);
+                let aay = Ty::Array(Box::new(Ty::Y));
+                let shapes = vec![
+                    ("(ayy)".to_string(), RV::Struct(vec![big.clone(), RV::Y(2)])),
+                    ("aay/2".to_string(), RV::Array(aay.clone(), vec![big.clone(), ay(2, 2)])),
+                    (
+                        "a{say}".to_string(),
+                        RV::Dict(Ty::S, aay.clone(), vec![(RV::S("k".into()), big)]),
+                    ),
+                ];
+                for (name, v) in shapes {
+                    push(name, l, v, true, &mut out);
+                }
+            }
+        }
+        // many offsets: width changes at 3n ≤ 255 (n = 85|86) and 4n ≤ 65535 (n = 16383|16384)
+        for nn in [83usize, 84, 85, 86, 87, 16382, 16383, 16384, 16385] {
+            out.push(Case {
+                label: format!("as/n n={nn}"),
+                v: many_strings(nn),
+                threshold: true,
+            });
+        }
+        for v in extras() {
+            out.push(Case {
+                label: format!("extra {}", v.ty().sig()),
+                v,
+                threshold: false,
+            });
+        }
+        for ty in rv::all_types(n, true) {
+            for v in rv::values(&ty, &dom, capped) {
+                out.push(Case {
+                    label: ty.sig(),
+                    v,
+                    threshold: false,
+                });
+            }
+        }
+        out
+    }
+
+    pub enum Obs {
+        Bytes(Vec<u8>),
+        Error(String),
+        Panic(String),
+    }
+
+    /// Build the zvariant value once; also read it back to learn the order the implementation
+    /// gives to dict entries.
+    pub fn prepare<'f>(v: &RV, fds: &'f FdTable) -> Result<(zvariant::Value<'f>, RV), String> {
+        let zv = rv::to_value(v, fds).map_err(|e| format!("to_value: {e}"))?;
+        use std::os::fd::AsRawFd;
+        // `Value::Fd` built by `to_value` borrows the table's descriptors, so raw numbers identify them
+        let fd_index =
+            |raw: i32| -> u32 { fds.fds.iter().position(|f| f.as_raw_fd() == raw).unwrap_or(0) as u32 };
+        let ordered = rv::from_value(&zv, &fd_index).map_err(|e| format!("from_value: {e}"))?;
+        Ok((zv, ordered))
+    }
+
+    /// Run the real encoder on a prepared value.
+    pub fn encode(zv: &zvariant::Value<'_>, be: bool, off: usize) -> Obs {
+        let c = ctx(Fmt::GV, be, off).unwrap();
+        match vcommon::catch(|| real_encode(zv, c)) {
+            Err(p) => Obs::Panic(format!("{p} at {}", vcommon::last_panic_location())),
+            Ok(Err(e)) => Obs::Error(format!("{}: {e}", err_class(&e))),
+            Ok(Ok(d)) => Obs::Bytes(d.bytes().to_vec()),
+        }
+    }
+
+    /// Smallest set of named deviations under which the reference reproduces `real` exactly.
+    pub fn explain(ordered: &RV, be: bool, off: usize, real: &[u8]) -> Option<Vec<&'static str>> {
+        let mut masks: Vec<u32> = (1..(1u32 << QUIRK_NAMES.len())).collect();
+        masks.sort_by_key(|m| (m.count_ones(), *m));
+        for m in masks {
+            if refgv::serialize_q(ordered, be, off, Quirks::from_mask(m)) == real {
+                return Some(
+                    (0..QUIRK_NAMES.len())
+                        .filter(|i| m & (1 << i) != 0)
+                        .map(|i| QUIRK_NAMES[i])
+                        .collect(),
+                );
+            }
+        }
+        None
+    }
+
+    fn clause_of(dev: &str) -> &'static str {
+        match dev {
+            "bool-as-u32" => "fixed-size-layout",
+            "no-trailing-padding-fixed-struct" => "fixed-size-padding",
+            "dict-entry-offset-width-ignores-offset" => "framing-offset-size",
+            "empty-array-body-drops-offsets" | "empty-struct-body-drops-offsets" => "framing-offset-positions",
+            _ => "normal-form-bytes",
+        }
+    }
+
+    fn first_diff(a: &[u8], b: &[u8]) -> usize {
+        a.iter().zip(b).position(|(x, y)| x != y).unwrap_or(a.len().min(b.len()))
+    }
+
+    /// A value ready to be encoded many times.
+    pub struct Prepared<'f> {
+        pub zv: zvariant::Value<'f>,
+        /// the value with dict entries in the order the implementation emits them
+        pub ordered: RV,
+        align: usize,
+        /// normal form per byte order (LE, BE), without leading padding
+        nf: [Vec<u8>; 2],
+    }
+
+    impl<'f> Prepared<'f> {
+        pub fn new(v: &RV, fds: &'f FdTable) -> Result<Self, String> {
+            let (zv, ordered) = prepare(v, fds)?;
+            let nf = [refgv::normal_form(&ordered, false), refgv::normal_form(&ordered, true)];
+            let align = refgv::align(&ordered.ty());
+            Ok(Prepared { zv, ordered, align, nf })
+        }
+        pub fn want(&self, be: bool, off: usize) -> Vec<u8> {
+            let mut out = vec![0u8; (self.align - off % self.align) % self.align];
+            out.extend_from_slice(&self.nf[be as usize]);
+            out
+        }
+    }
+
+    /// Evaluate one (value, endian, offset); returns the outcome class.
+    fn eval_case(report: &Report, label: &str, v: &RV, p: &Prepared<'_>, be: bool, off: usize) -> String {
+        let payload = || json!({"value": rv_to_json(v), "be": be, "offset": off});
+        match encode(&p.zv, be, off) {
+            Obs::Panic(msg) => {
+                report.violation(
+                    Violation::new(
+                        "encodes-without-panic",
+                        format!("{label} {} be={be} offset={off}: encoder panicked: {msg}", v.show_short()),
+                        payload(),
+                    )
+                    .feat("observed", "panic")
+                    .feat("where", msg.rsplit(" at ").next().unwrap_or("")),
+                );
+                "panic".into()
+            }
+            Obs::Error(e) => {
+                report.violation(
+                    Violation::new(
+                        "encodes-well-typed-value",
+                        format!("{label} {} be={be} offset={off}: encoder returned {e}", v.show_short()),
+                        payload(),
+                    )
+                    .feat("observed", "error")
+                    .feat("error", e.split(':').next().unwrap_or("")),
+                );
+                "error".into()
+            }
+            Obs::Bytes(real) => {
+                let want = p.want(be, off);
+                if real == want {
+                    return "equal".into();
+                }
+                let d = first_diff(&real, &want);
+                match explain(&p.ordered, be, off, &real) {
+                    Some(devs) => {
+                        for dev in &devs {
+                            report.violation(
+                                Violation::new(
+                                    clause_of(dev),
+                                    format!(
+                                        "{label} {} be={be} offset={off}: bytes differ from normal form at byte {d} (real {} bytes: {}, normal form {} bytes: {}); reproduced exactly by the reference with deviation(s) {:?}",
+                                        v.show_short(), real.len(), refgv::short_hex(&real), want.len(), refgv::short_hex(&want), devs
+                                    ),
+                                    payload(),
+                                )
+                                .feat("deviation", dev),
+                            );
+                        }
+                        format!("mismatch:{}", devs.join("+"))
+                    }
+                    None => {
+                        report.violation(
+                            Violation::new(
+                                "normal-form-bytes",
+                                format!(
+                                    "{label} {} be={be} offset={off}: bytes differ from normal form at byte {d} (real {} bytes: {}, normal form {} bytes: {})",
+                                    v.show_short(), real.len(), refgv::short_hex(&real), want.len(), refgv::short_hex(&want)
+                                ),
+                                payload(),
+                            )
+                            .feat("deviation", "unexplained")
+                            .feat("type", p.ordered.ty().sig()),
+                        );
+                        "mismatch:unexplained".into()
+                    }
+                }
+            }
+        }
+    }
+
+    trait ShowShort {
+        fn show_short(&self) -> String;
+    }
+    impl ShowShort for RV {
+        fn show_short(&self) -> String {
+            let s = self.show();
+            if s.len() > 120 {
+                let cut = (0..=100).rev().find(|i| s.is_char_boundary(*i)).unwrap_or(0);
+                format!("{}…({} chars)", &s[..cut], s.len())
+            } else {
+                s
+            }
+        }
+    }
+
+    fn layout_class(v: &RV) -> &'static str {
+        let t = v.ty();
+        if !t.has_container() {
+            return "basic";
+        }
+        if refgv::fixed_size(&t).is_some() {
+            "fixed-size-container"
+        } else {
+            "variable-size-container"
+        }
+    }
+
+    /// Unit self-test of the reference on encodings quoted in the GVariant specification's
+    /// examples section (known by heart; also re-checked by the GLib audit).
+    fn spec_examples() -> Result<(), String> {
+        let t = |v: RV, want: &[u8]| -> Result<(), String> {
+            let got = refgv::normal_form(&v, false);
+            if got != want {
+                return Err(format!(
+                    "spec example {}: reference gives {} expected {}",
+                    v.show(),
+                    vcommon::hex(&got),
+                    vcommon::hex(want)
+                ));
+            }
+            Ok(())
+        };
+        // ('foo', -1) of type (si)
+        t(
+            RV::Struct(vec![RV::S("foo".into()), RV::I(-1)]),
+            &[b'f', b'o', b'o', 0, 0xff, 0xff, 0xff, 0xff, 4],
+        )?;
+        // [('hi', -2), ('bye', -1)] of type a(si)
+        t(
+            RV::Array(
+                Ty::Struct(vec![Ty::S, Ty::I]),
+                vec![
+                    RV::Struct(vec![RV::S("hi".into()), RV::I(-2)]),
+                    RV::Struct(vec![RV::S("bye".into()), RV::I(-1)]),
+                ],
+            ),
+            &[
+                b'h', b'i', 0, 0, 0xfe, 0xff, 0xff, 0xff, 3, 0, 0, 0, b'b', b'y', b'e', 0, 0xff, 0xff, 0xff,
+                0xff, 4, 9, 21,
+            ],
+        )?;
+        // ['i', 'can', 'has', 'strings?'] of type as
+        t(
+            RV::Array(
+                Ty::S,
+                ["i", "can", "has", "strings?"].iter().map(|x| RV::S(x.to_string())).collect(),
+            ),
+            b"i\0can\0has\0strings?\0\x02\x06\x0a\x13",
+        )?;
+        // ((byte 0x70, 'ican'), (byte 0x70? ...)) -> use the (yy)/(iy) padding examples:
+        // (byte 0x70, 0x60) → 70 60 ; (int32 96, byte 0x70) → 60 00 00 00 70 00 00 00
+        t(RV::Struct(vec![RV::I(96), RV::Y(0x70)]), &[0x60, 0, 0, 0, 0x70, 0, 0, 0])?;
+        // [(int32 96, byte 0x70), (int32 648, byte 0xf7)] of type a(iy)
+        t(
+            RV::Array(
+                Ty::Struct(vec![Ty::I, Ty::Y]),
+                vec![
+                    RV::Struct(vec![RV::I(96), RV::Y(0x70)]),
+                    RV::Struct(vec![RV::I(648), RV::Y(0xf7)]),
+                ],
+            ),
+            &[0x60, 0, 0, 0, 0x70, 0, 0, 0, 0x88, 2, 0, 0, 0xf7, 0, 0, 0],
+        )?;
+        // [byte 0x04, 0x05, 0x06, 0x07] → 04 05 06 07; [true,false,...] one byte each
+        t(
+            RV::Array(Ty::B, vec![RV::B(true), RV::B(false), RV::B(false), RV::B(true), RV::B(true)]),
+            &[1, 0, 0, 1, 1],
+        )?;
+        // just 'hello world' of type ms → string + extra zero
+        t(
+            RV::Maybe(Ty::S, Some(Box::new(RV::S("hello world".into())))),
+            b"hello world\0\0",
+        )?;
+        // ((int16 1? ..  nested structure example: ((byte 0x70? 'ican'), ... ) skip; dict entry
+        // {'a key', <int32 514>} of type {sv}: tested through a{sv} with one entry
+        t(
+            RV::Dict(
+                Ty::S,
+                Ty::V,
+                vec![(RV::S("a key".into()), RV::V(Box::new((Ty::I, RV::I(514)))))],
+            ),
+            // entry: "a key\0" pad to 8, 02 02 00 00, 00, 'i', offset 06; array offset = 15
+            &[b'a', b' ', b'k', b'e', b'y', 0, 0, 0, 2, 2, 0, 0, 0, b'i', 6, 15],
+        )?;
+        Ok(())
+    }
+
+    fn audit(report: &Report, cases: &[Case]) {
+        let g = match refgv::GLib::open() {
+            Ok(g) => g,
+            Err(e) => {
+                report.note(format!("GLib audit of refgv skipped: {e}"));
+                return;
+            }
+        };
+        let audited = AtomicU64::new(0);
+        let skipped = AtomicU64::new(0);
+        let fail: Mutex<Option<String>> = Mutex::new(None);
+        vcommon::par_for(cases.len(), 1, |i| {
+            if fail.lock().unwrap().is_some() {
+                return;
+            }
+            match refgv::audit_one(&g, &cases[i].v) {
+                Ok(true) => {
+                    audited.fetch_add(1, Ordering::Relaxed);
+                }
+                Ok(false) => {
+                    skipped.fetch_add(1, Ordering::Relaxed);
+                }
+                Err(e) => {
+                    *fail.lock().unwrap() = Some(e);
+                }
+            }
+        });
+        if let Some(e) = fail.lock().unwrap().clone() {
+            vcommon::machinery_failure(&format!("C05: reference model disagrees with GLib: {e}"));
+        }
+        report.set(
+            "glib_audit",
+            json!({"values_agreeing_in_both_byte_orders_and_normal_form": audited.load(Ordering::Relaxed),
+                   "skipped_not_expressible_in_text_form": skipped.load(Ordering::Relaxed)}),
+        );
+    }
+
+    pub fn replay(path: &str) -> i32 {
+        let art = vcommon::load_replay(path);
+        let r = &art["replay"];
+        let Some(v) = rv_from_json(&r["value"]) else {
+            vcommon::machinery_failure("C05 replay: cannot read value")
+        };
+        let be = r["be"].as_bool().unwrap_or(false);
+        let off = r["offset"].as_u64().unwrap_or(0) as usize;
+        let fds = FdTable::new(v.max_fd_index().map(|i| i as usize + 1).unwrap_or(0));
+        println!("replay C05: type {} be={be} offset={off}", v.ty().sig());
+        let p = match Prepared::new(&v, &fds) {
+            Ok(p) => p,
+            Err(e) => vcommon::machinery_failure(&e),
+        };
+        match encode(&p.zv, be, off) {
+            Obs::Panic(p) => {
+                println!("observed: PANIC {p}");
+                1
+            }
+            Obs::Error(e) => {
+                println!("observed: error {e}");
+                1
+            }
+            Obs::Bytes(real) => {
+                let want = refgv::serialize(&p.ordered, be, off);
+                println!("real        ({} bytes): {}", real.len(), refgv::short_hex(&real));
+                println!("normal form ({} bytes): {}", want.len(), refgv::short_hex(&want));
+                if real == want {
+                    println!("observed: equal — property holds on this case");
+                    0
+                } else {
+                    println!(
+                        "observed: MISMATCH at byte {}; deviation(s): {:?}",
+                        first_diff(&real, &want),
+                        explain(&p.ordered, be, off, &real)
+                    );
+                    1
+                }
+            }
+        }
+    }
+
+    pub fn main(args: &Args) -> i32 {
+        if let Some(p) = &args.replay {
+            return replay(p);
+        }
+        let report = Report::new("C05", args.tier, args.seed, "exploration");
+        keep_freed_memory();
+        if let Err(e) = spec_examples() {
+            vcommon::machinery_failure(&format!("C05: reference self-test failed: {e}"));
+        }
+        let mut capped = false;
+        let cases = corpus(args.tier, &mut capped);
+        report.set("values", json!(cases.len()));
+        report.set(
+            "types",
+            json!(rv::all_types(args.tier.pick(3, 4), true).len()),
+        );
+        report.set("corpus_build_wall_s", json!((report.elapsed_s() * 10.0).round() / 10.0));
+        let t0 = std::time::Instant::now();
+        audit(&report, &cases);
+        report.set("glib_audit_wall_s", json!((t0.elapsed().as_secs_f64() * 10.0).round() / 10.0));
+
+        let offsets: Vec<usize> = (0..8).collect();
+        let fds = FdTable::new(8);
+        let n_thr = AtomicU64::new(0);
+        vcommon::par_for(cases.len(), 1, |i| {
+            let c = &cases[i];
+            let fds = &fds;
+            let t_case = std::time::Instant::now();
+            let nontrivial = c.v.ty().has_container();
+            if nontrivial {
+                report.nontrivial(hash64(&(c.v.ty().sig(), c.v.show())));
+            }
+            if c.threshold {
+                n_thr.fetch_add(1, Ordering::Relaxed);
+            }
+            let mut classes: std::collections::BTreeMap<String, u64> = Default::default();
+            let p = match Prepared::new(&c.v, fds) {
+                Ok(p) => p,
+                Err(e) => vcommon::machinery_failure(&format!("C05: {}: {e}", c.label)),
+            };
+            for be in [false, true] {
+                for off in &offsets {
+                    let cls = eval_case(&report, &c.label, &c.v, &p, be, *off);
+                    *classes.entry(format!("{}/{}", layout_class(&c.v), cls)).or_insert(0) += 1;
+                }
+            }
+            report.eval(16);
+            if std::env::var_os("VERIF_DEBUG").is_some() && t_case.elapsed().as_millis() > 200 {
+                eprintln!("slow case {} ms: {}", t_case.elapsed().as_millis(), c.label);
+            }
+            for (k, n) in classes {
+                report.outcome_n(&k, n);
+            }
+        });
+        // a few concrete cases for the evidence file
+        for c in cases.iter().filter(|c| c.v.ty().has_container()).step_by(cases.len() / 10 + 1) {
+            let Ok(p) = Prepared::new(&c.v, &fds) else { continue };
+            if let Obs::Bytes(real) = encode(&p.zv, true, 3) {
+                report.sample(json!({"type": c.v.ty().sig(), "value": c.v.show_short(), "be": true, "offset": 3,
+                    "real": refgv::short_hex(&real), "normal_form": refgv::short_hex(&p.want(true, 3))}));
+            }
+        }
+        report.set("threshold_values", json!(n_thr.load(Ordering::Relaxed)));
+        report.assume("the harness's reading of the GVariant specification (refgv) is right; it is cross-checked against GLib's g_variant_parse/g_variant_byteswap/g_variant_is_normal_form over the whole value corpus on every run");
+        report.assume("leading zero padding from the given start offset to the value's alignment is the embedding convention (the specification only defines serialisations that start aligned)");
+        report.assume("handle (h) values are fd-list indices numbered in order of appearance; dict entries are compared in the order the implementation emits them (normal form does not order entries)");
+        if capped {
+            report.cap("value products above 64 combinations per type are reduced to base-choice coverage");
+        }
+        report.finish(
+            "every type ≤ N nodes (with maybe) × rv::values × {LE,BE} × offsets 0..7, plus threshold-crossing containers; non-trivial = the value's type contains a container (framing, padding or terminator rules apply)",
+            true,
+        )
+    }
 }
